@@ -81,9 +81,11 @@ def walk(t, v, pre, post, tv=None):
             walk(ft, getattr(v, n), pre, post, tv2)
         post.append(v)
     elif k == "namedtuple":
+        tv = tinfo.scope(ti, tv)
         for n, ft in tinfo.nt_fields(ti.type):
             walk(ft, getattr(v, n), pre, post, tv)
     elif k == "typeddict":
+        tv = tinfo.scope(ti, tv)
         hints, req, opt = tinfo.td_keys(ti.type)
         for kk in hints:
             if kk in v:
